@@ -674,12 +674,16 @@ impl VisitMut for Marker {
                     if let Some(meth) = fname.strip_prefix('.') {
                         // `.iter` : `for x in &M` / `for x in M` -> `for x in M.iter()`
                         let m = Ident::new(meth.trim_end_matches("()"), Span::call_site());
-                        let it: Expr = match &*f.expr {
-                            Expr::Reference(r) => (*r.expr).clone(),
-                            other => other.clone(),
-                        };
-                        let ne: Expr = parse_quote!(#it.#m());
-                        f.expr = Box::new(ne);
+                        // an iterable already spelled `M.iter()` is left as it is: either spelling of the loop is read alike
+                        let already = matches!(&*f.expr, Expr::MethodCall(mc) if mc.method == m && mc.args.is_empty());
+                        if !already {
+                            let it: Expr = match &*f.expr {
+                                Expr::Reference(r) => (*r.expr).clone(),
+                                other => other.clone(),
+                            };
+                            let ne: Expr = parse_quote!(#it.#m());
+                            f.expr = Box::new(ne);
+                        }
                     } else if let Ok(fp) = parse_str::<syn::Path>(fname) {
                         // `for x in M.iter()` and `for x in M` (M a reference) are the same iteration: the wrapper gets M in both
                         // forms (a field place gets a `&`), so that either spelling of the loop is read alike
